@@ -157,3 +157,33 @@ def run(ctx):
     # ---- D4: code/kind agreement (shared link 3), all log sites
     n = verdict.code_kind_agreement(ctx, prog, 'C01-D4')
     ctx.floor('log sites (MIR, both flavours)', n or 0, 230, rule='C01-D4')
+
+    # ---- D6: extent of the JPEG scan box: the byte after 0xFF that keeps the scanner inside the entropy-coded segment.  ITU T.81 B.1.1.5:
+    # inside a scan 0xFF is followed by 0x00 (stuffing) or RSTm (0xD0..0xD7); a predicate that rejects one of them ends the SOS box early and
+    # the rest of the image data lies in no hashed box.  The truth condition (DNF) of in_entropy is evaluated over all 256 byte values.
+    import finite
+    ie = 'asset_handlers::jpeg_io::in_entropy'
+    if ctx.require(prog.has(ie), ie):
+        ctx.analysed(ie, 0)
+        fn = prog.fn(ie)
+        s_, dnf = T.truth_dnf(ie)
+        var = fn.name_of(1)
+        acc, unk = finite.accepted_set(dnf or [], var, range(256)) if dnf else (set(), ['opaque'])
+        need = set([0x00] + list(range(0xD0, 0xD8)))
+        ctx.ob('C01-D6', ie, 'byte after 0xFF inside the scan', 'accepts 0x00 and every RSTm 0xD0..0xD7 (enumerated over 256 values)', not unk and need <= acc,
+               detail='accepted %s; missing %s; uninterpreted %s' % (sorted(hex(x) for x in acc)[:12], sorted(hex(x) for x in need - acc), unk[:3]), site=loc(fn.d['span']))
+        ges = 'asset_handlers::jpeg_io::get_entropy_size'
+        if ctx.require(prog.has(ges), ges):
+            gf = prog.fn(ges)
+            ctx.ob('C01-D6', ges, 'scan extent', 'decided by in_entropy', any(t['fd'].endswith('jpeg_io::in_entropy') for bi, t in gf.calls()))
+
+    # ---- D7: the signed exclusion range of a data hash may be replaced by the observed manifest-store range only while validating a claim that
+    # has an update manifest appended (svi.update_manifest_label is Some); otherwise the file layout, not the signed assertion, would decide what is excluded
+    for name in [n for n in prog.fns() if re.match(r'^claim::Claim::verify_hash_binding(_async::\{closure#0\})?$', n)]:
+        fn = prog.fn(name)
+        eff = set(bi for bi, t in fn.calls() if t['fd'].endswith('IndexMut::index_mut') and 'exclusions' in T.call_term(fn, bi) and 'DataHash' in T.call_term(fn, bi))
+        if not ctx.ob('C01-D7', name, 'replacement of a signed exclusion range', 'site exists', bool(eff), nontrivial=False):
+            continue
+        g = oblig.TermGuard(T, r'(^|\.)update_manifest_label$', 'some', name='svi.update_manifest_label is Some')
+        oblig.effect_requires(ctx, 'C01-D7', fn, 'exclusions[pos] = manifest store range', lambda bi, b, _e=eff: bi in _e, [g])
+
